@@ -64,7 +64,8 @@ Record task_ok2 (s : istate) (t : key) (ti : tinfo) : Prop := {
   (* a recorded dependency is complete, or its request is still outstanding *)
   k2_dcur : forall d, In d (deps s t) -> curk s (d_key d) \/ exists rq, Oreq2 s rq /\ iq_task rq = Some t /\ iq_input rq = d_key d;
   k2_dmen : forall d, In d (deps s t) -> In (d_key d) (requestable (rules t)) /\ d_single d = false;
-  k2_nodisc : ti_disc ti = []
+  k2_nodisc : ti_disc ti = [];
+  k2_fsig : In t (is_fintasks s) -> res_sig (res_of s t) = r_sig (rules t)
 }.
 
 (* tasks and values *)
